@@ -6,9 +6,10 @@ ClLoad(r) ==
   LET listing == Range(r.listing)
       def == LoadDef(r.genomes, r.sigIds, r.idAttr)
       expOk == Locatable(listing) /\ def.ok
-  IN << <<"loads-iff-complete-and-locatable", (r.outcome = "loaded") = expOk>>,
+      amb == Ambiguous(r.genomes, r.idAttr)
+  IN << <<"loads-iff-complete-and-locatable", amb \/ (r.outcome = "loaded") = expOk>>,
         <<"fails-with-an-error-otherwise", ~expOk => r.outcome = "error">>,
-        <<"every-genome-paired-with-its-own-signature", (r.outcome = "loaded" /\ expOk) =>
+        <<"every-genome-paired-with-its-own-signature", (r.outcome = "loaded" /\ (expOk \/ amb)) =>
               PairingCorrect(r.genomes, r.sigIds, r.idAttr, r.g, r.I)>> >>
 
 ClDist(r) ==
